@@ -11,7 +11,7 @@ def main():
     root = os.environ.get("VERIF_REPO", "/repo")
     ov = {}
     a = sys.argv[2:]
-    for i in range(0, len(a), 3):
+    for i in range(0, len(a) - 2, 3):
         rel, old, new = a[i], a[i+1], a[i+2]
         text = ov.get(rel) or open(os.path.join(root, rel)).read()
         old = old.encode().decode('unicode_escape'); new = new.encode().decode('unicode_escape')
